@@ -27,6 +27,8 @@ from lib.aximem14 import AXIMemSlave
 from lib import lfsr
 
 ID = "C14"
+REQUIRED_CLASSES = ["wrap", "random_addr_repeat", "pattern_duplicate_address", "k_errors_exact", "zero_errors_faithful", "preload=gen", "preload=model",
+                    "checker_setting_differs"]      # classes that must occur in every run (else harness error: vacuous generator)
 LEVEL = "exploration"
 RULE = ("configuration = (port type native/AXI, data width 8..256, address width, BIST or pattern pair); case = (base, power-of-two "
         "range, length, random_data, random_addr, optional different checker setting, memory pre-load by a generator run or by the "
